@@ -12,14 +12,20 @@ import (
 var Checks = map[string]func(tier string, seed uint64) int{
 	"C01": C01,
 	"C02": C02,
+	"C04": C04,
+	"C05": C05,
 	"C06": C06,
+	"C08": C08,
 }
 
 // Generators maps property ids to their case generators (debug aid).
 var Generators = map[string]func(seed uint64, i int) *world.Case{
 	"C01": GenC01,
 	"C02": GenC02,
+	"C04": GenC04,
+	"C05": GenC05,
 	"C06": GenC06,
+	"C08": GenC08,
 }
 
 // Replay re-runs a replay file in a fresh process and reports whether the
